@@ -263,6 +263,12 @@ func c07Inputs(ctx *Ctx) []c07Input {
 				add([]tStmt{V, st("both"), {Op: "aggregate", Aggs: []tAgg{{Name: "p", Kind: "percentile", Field: "age", Percents: []float64{50}}}}}, N, []c07Stage{fan(2 * d), {"exactly", 1}})
 				add([]tStmt{V, st("both"), {Op: "aggregate", Aggs: []tAgg{{Name: "p", Kind: "percentile", Field: "age", Percents: []float64{10, 90}}, {Name: "t", Kind: "term", Field: "c"}}}}, N, []c07Stage{fan(2 * d), {"exactly", 2 + terms}})
 				add([]tStmt{V, st("both"), {Op: "aggregate", Aggs: []tAgg{{Name: "h", Kind: "histogram", Field: "age", Interval: 30}}}}, N, []c07Stage{fan(2 * d), {"exactly", 3}})
+				// more aggregations in one step than any worker pool is likely to have slots
+				many := []tAgg{}
+				for k := 0; k < 12; k++ {
+					many = append(many, tAgg{Name: fmt.Sprintf("c%d", k), Kind: "count"})
+				}
+				add([]tStmt{V, st("both"), {Op: "aggregate", Aggs: many}}, N, []c07Stage{fan(2 * d), {"exactly", 12}})
 			}
 			if n <= 2300 {
 				add([]tStmt{V, st("both"), st("both")}, N, []c07Stage{fan(2 * d), fan(2 * d)})
@@ -309,7 +315,7 @@ func runC07(ctx *Ctx) error {
 	ctx.Shard = 400
 	ctx.Scope = "N_scope"
 	ctx.Exhaustive = true
-	ctx.Rule = "grid: circulant graphs (N vertices, out-degree d in {1,3}) with N in {0,1,99,101,1001,2300,5001} (thorough adds 100,999,1000,2001,5000,12000,26000: below, at and several multiples above every internal capacity 100/1000/5000) x 15 cycle-free programs (scan, out, both, bothE, E.both, outE.out, both.limit, both.count, both.distinct, both.aggregate(term), both.aggregate(percentile / percentile+term / histogram over a field that holds text on one vertex in 997), both.both, bothE.both.bothE) and star graphs (hub with M leaves, M in {1,300,999,1001,2300,5001,7500}; thorough 1000,2001,12000,30000) x 9 programs that fan one traveler out into M (two of them with a limit behind the fan-out); cancellation after 0/1/150/5001/10 rows on the large ones; each run through the production compiler and pipeline.Run on badger in a worker sub-process with a 25 s deadline; observed: stream closed, rows, goroutines above the pre-run baseline after settling, entries left in the work directory, cursor advances on the store (bounded for limit programs on the large graphs: a satisfied limit stops the scan behind it); non-trivial = more rows than the smallest internal buffer (100); distinct by input"
+	ctx.Rule = "grid: circulant graphs (N vertices, out-degree d in {1,3}) with N in {0,1,99,101,1001,2300,5001} (thorough adds 100,999,1000,2001,5000,12000,26000: below, at and several multiples above every internal capacity 100/1000/5000) x 15 cycle-free programs (scan, out, both, bothE, E.both, outE.out, both.limit, both.count, both.distinct, both.aggregate(term), both.aggregate(percentile / percentile+term / histogram over a field that holds text on one vertex in 997; twelve aggregations in one step), both.both, bothE.both.bothE) and star graphs (hub with M leaves, M in {1,300,999,1001,2300,5001,7500}; thorough 1000,2001,12000,30000) x 9 programs that fan one traveler out into M (two of them with a limit behind the fan-out); cancellation after 0/1/150/5001/10 rows on the large ones; each run through the production compiler and pipeline.Run on badger in a worker sub-process with a 25 s deadline; observed: stream closed, rows, goroutines above the pre-run baseline after settling, entries left in the work directory, cursor advances on the store (bounded for limit programs on the large graphs: a satisfied limit stops the scan behind it); non-trivial = more rows than the smallest internal buffer (100); distinct by input"
 	var inputs []c07Input
 	if ctx.Replay != nil {
 		var in c07Input
